@@ -749,17 +749,92 @@ Definition ex_f9_fs : fs :=
 
 Local Arguments calc_id : simpl never.
 
-Lemma ex_f9_fs_val : exists f, ex_f9_fs = f /\ listing f = [calc_id ex_fr ex_u1] /\
-  cache_file f = Some [(calc_id ex_fr ex_u0, ex_u0); (calc_id ex_fr ex_u1, ex_u1)].
-Proof. eexists. split; [vm_compute; reflexivity|]. split; vm_compute; reflexivity. Qed.
+(* The facts about the witness are first proved for an ABSTRACT file system satisfying a few equations
+   (no computation), then the equations are discharged for the concrete one by vm_compute. *)
+Section WITNESS.
+  Variable fr : fl -> str.
+  Variable ls : list N -> option json.
+  Variable lb : list N -> dec.
+  Variable f : fs.
+  Variables u0 u1 : json.
+  Hypothesis HL : listing f = [calc_id fr u1].
+  Hypothesis HC : cache_file f = Some [(calc_id fr u0, u0); (calc_id fr u1, u1)].
+  Hypothesis Hne : calc_id fr u0 <> calc_id fr u1.
+  Hypothesis HG : get f (spf (calc_id fr u1)) = Some (File (sp_content fr u1)).
+  Hypothesis HS : ls (dumps fr u1) = Some u1.
+  Hypothesis HB : lb (dumps fr u1) = DVal u1.
+  Hypothesis HO : is_objb u1 = true.
 
-Lemma sound_two : forall fr a b, sound fr [(calc_id fr a, a); (calc_id fr b, b)].
-Proof.
-  intros fr a b i v [H|[H|[]]]; apply pair_equal_spec in H; destruct H as [<- <-]; reflexivity.
-Qed.
+  Lemma sound_two : sound fr [(calc_id fr u0, u0); (calc_id fr u1, u1)].
+  Proof.
+    intros i v [H|[H|[]]]; apply pair_equal_spec in H; destruct H as [<- <-]; reflexivity.
+  Qed.
 
-Lemma ex_ids_differ : calc_id ex_fr ex_u0 <> calc_id ex_fr ex_u1.
+  Lemma w_inv : Inv fr f fresh.
+  Proof.
+    split; [apply sound_nil|]. intros c Hc. rewrite HC in Hc.
+    assert (Ec : c = [(calc_id fr u0, u0); (calc_id fr u1, u1)]) by congruence.
+    rewrite Ec. apply sound_two.
+  Qed.
+
+  Lemma w_intact : ws_intact fr ls lb f.
+  Proof.
+    intros i Hi. rewrite HL in Hi. destruct Hi as [<-|[]].
+    exists (sp_content fr u1), u1. split; [exact HG|]. split; [exact HS|]. split; [exact HB|]. split; [reflexivity|exact HO].
+  Qed.
+
+  Lemma w_nodup : file_nodup f.
+  Proof.
+    intros c Hc. rewrite HC in Hc.
+    assert (Ec : c = [(calc_id fr u0, u0); (calc_id fr u1, u1)]) by congruence.
+    rewrite Ec. change (NoDup [calc_id fr u0; calc_id fr u1]).
+    constructor; [intros [H|[]]; exact (Hne (eq_sym H))|]. constructor; [intros []|constructor].
+  Qed.
+
+  Lemma w_f9 : f9_state f fresh = true.
+  Proof.
+    unfold f9_state. rewrite HC, HL. simpl s_cache. simpl map.
+    assert (E : seteq_s [calc_id fr u0; calc_id fr u1] [calc_id fr u1] = false).
+    { destruct (seteq_s [calc_id fr u0; calc_id fr u1] [calc_id fr u1]) eqn:E; auto.
+      rewrite seteq_s_spec in E. exfalso. destruct (proj1 (E (calc_id fr u0)) (or_introl eq_refl)) as [H|[]].
+      exact (Hne (eq_sym H)). }
+    rewrite E. reflexivity.
+  Qed.
+
+  Lemma w_not_exact : ~ exact ls f.
+  Proof.
+    intros [c [Hc [_ [K _]]]]. rewrite HC in Hc.
+    assert (Ec : c = [(calc_id fr u0, u0); (calc_id fr u1, u1)]) by congruence.
+    assert (Hin : In (calc_id fr u0) (listing f)).
+    { apply (proj1 (K (calc_id fr u0))). rewrite Ec. left. reflexivity. }
+    rewrite HL in Hin. destruct Hin as [H|[]]. exact (Hne (eq_sym H)).
+  Qed.
+
+  Lemma w_coll_free : coll_free fr ls f (map snd (s_cache fresh) ++ file_vals f).
+  Proof.
+    intros i w v Hi Hw Hv Hc. rewrite HL in Hi. destruct Hi as [<-|[]].
+    assert (Ew : wsv ls f (calc_id fr u1) = Some u1).
+    { unfold wsv. rewrite HG. exact HS. }
+    assert (Ewv : w = u1) by congruence. subst w.
+    unfold file_vals in Hv. rewrite HC in Hv. simpl in Hv. destruct Hv as [<-|[<-|[]]]; [|reflexivity].
+    exfalso. apply Hne. exact Hc.
+  Qed.
+End WITNESS.
+
+Lemma ex_HL : listing ex_f9_fs = [calc_id ex_fr ex_u1].
+Proof. vm_compute. reflexivity. Qed.
+Lemma ex_HC : cache_file ex_f9_fs = Some [(calc_id ex_fr ex_u0, ex_u0); (calc_id ex_fr ex_u1, ex_u1)].
+Proof. vm_compute. reflexivity. Qed.
+Lemma ex_Hne : calc_id ex_fr ex_u0 <> calc_id ex_fr ex_u1.
 Proof. vm_compute. discriminate. Qed.
+Lemma ex_HG : get ex_f9_fs (spf (calc_id ex_fr ex_u1)) = Some (File (sp_content ex_fr ex_u1)).
+Proof. vm_compute. reflexivity. Qed.
+Lemma ex_HS : ex_ls (dumps ex_fr ex_u1) = Some ex_u1.
+Proof. vm_compute. reflexivity. Qed.
+Lemma ex_HB : ex_lb (dumps ex_fr ex_u1) = DVal ex_u1.
+Proof. vm_compute. reflexivity. Qed.
+Lemma ex_HU : exists s', update_cache ex_fr ex_ls ex_f9_fs fresh = (ex_f9_fs, s', Ok None).
+Proof. vm_compute. eexists. reflexivity. Qed.
 
 (* the witness state satisfies the hypotheses of the theorems above, and is an F9 state *)
 Lemma ex_f9_hyps :
@@ -768,18 +843,11 @@ Lemma ex_f9_hyps :
   cache_file ex_f9_fs = Some [(calc_id ex_fr ex_u0, ex_u0); (calc_id ex_fr ex_u1, ex_u1)] /\
   f9_state ex_f9_fs fresh = true.
 Proof.
-  destruct ex_f9_fs_val as [f [Ef [HL HC]]]. rewrite Ef.
-  split; [|split; [|split; [|split; [exact HL|split; [exact HC|]]]]].
-  - split; [apply sound_nil|]. intros c Hc. rewrite HC in Hc.
-    assert (Ec : c = [(calc_id ex_fr ex_u0, ex_u0); (calc_id ex_fr ex_u1, ex_u1)]) by congruence.
-    rewrite Ec. apply sound_two.
-  - intros i Hi. rewrite HL in Hi. destruct Hi as [<-|[]].
-    rewrite <- Ef. exists (sp_content ex_fr ex_u1), ex_u1. repeat split; vm_compute; reflexivity.
-  - intros c Hc. rewrite HC in Hc.
-    assert (Ec : c = [(calc_id ex_fr ex_u0, ex_u0); (calc_id ex_fr ex_u1, ex_u1)]) by congruence.
-    rewrite Ec. change (NoDup [calc_id ex_fr ex_u0; calc_id ex_fr ex_u1]).
-    constructor; [intros [H|[]]; exact (ex_ids_differ (eq_sym H))|]. constructor; [intros []|constructor].
-  - rewrite <- Ef. vm_compute. reflexivity.
+  split; [exact (w_inv ex_fr ex_f9_fs ex_u0 ex_u1 ex_HC)|].
+  split; [exact (w_intact ex_fr ex_ls ex_lb ex_f9_fs ex_u1 ex_HL ex_HG ex_HS ex_HB eq_refl)|].
+  split; [exact (w_nodup ex_fr ex_f9_fs ex_u0 ex_u1 ex_HC ex_Hne)|].
+  split; [exact ex_HL|]. split; [exact ex_HC|].
+  exact (w_f9 ex_fr ex_f9_fs ex_u0 ex_u1 ex_HL ex_HC ex_Hne).
 Qed.
 
 Theorem update_cache_exact_refuted :
@@ -787,26 +855,14 @@ Theorem update_cache_exact_refuted :
             (exists s', update_cache ex_fr ex_ls f fresh = (f, s', Ok None)) /\
             ~ exact ex_ls f.
 Proof.
-  destruct ex_f9_hyps as [H1 [H2 [H3 [HL [HC _]]]]]. exists ex_f9_fs.
-  split; [exact H1|split; [exact H2|split; [exact H3|split]]].
-  - vm_compute. eexists. reflexivity.
-  - intros [c [Hc [_ [K _]]]]. rewrite HC in Hc.
-    assert (Ec : c = [(calc_id ex_fr ex_u0, ex_u0); (calc_id ex_fr ex_u1, ex_u1)]) by congruence.
-    assert (Hin : In (calc_id ex_fr ex_u0) (listing ex_f9_fs)).
-    { apply (proj1 (K (calc_id ex_fr ex_u0))). rewrite Ec. left. reflexivity. }
-    rewrite HL in Hin. destruct Hin as [H|[]]. exact (ex_ids_differ (eq_sym H)).
+  destruct ex_f9_hyps as [H1 [H2 [H3 _]]]. exists ex_f9_fs.
+  split; [exact H1|split; [exact H2|split; [exact H3|split; [exact ex_HU|]]]].
+  exact (w_not_exact ex_fr ex_ls ex_f9_fs ex_u0 ex_u1 ex_HL ex_HC ex_Hne).
 Qed.
 
 (* collision freedom is satisfiable: on the witness every cached value equals the workspace value *)
 Lemma ex_coll_free : coll_free ex_fr ex_ls ex_f9_fs (map snd (s_cache fresh) ++ file_vals ex_f9_fs).
-Proof.
-  destruct ex_f9_hyps as [_ [_ [_ [HL [HC _]]]]].
-  intros i w v Hi Hw Hv Hc. rewrite HL in Hi. destruct Hi as [<-|[]].
-  assert (Ew : wsv ex_ls ex_f9_fs (calc_id ex_fr ex_u1) = Some ex_u1) by (vm_compute; reflexivity).
-  assert (Ewv : w = ex_u1) by congruence. subst w.
-  unfold file_vals in Hv. rewrite HC in Hv. simpl in Hv. destruct Hv as [<-|[<-|[]]]; [|reflexivity].
-  exfalso. unfold Cache.cid in Hc. apply ex_ids_differ. exact Hc.
-Qed.
+Proof. exact (w_coll_free ex_fr ex_ls ex_f9_fs ex_u0 ex_u1 ex_HL ex_HC ex_Hne ex_HG ex_HS). Qed.
 
 (* ================================================================ E. licence for the correspondence *)
 Lemma norm_cid : forall fr a b, norm a = norm b -> calc_id fr a = calc_id fr b.
@@ -830,15 +886,16 @@ Section HOLDS.
       split; [apply sound_nil|exact (proj2 H1)].
     - inversion E; subst. eapply inv_restart; eauto.
     - destruct (unlink f CACHEP) as [f1|e] eqn:E1; inversion E; subst; auto. eapply inv_delcache; eauto.
-    - destruct (observe fr ls lb f s (ev8 c)) as [s1 ob] eqn:E1. inversion E; subst.
-      split; [|exact (proj2 H)]. pose proof (observe_sound fr ls lb f s (ev8 c) H) as H1. rewrite E1 in H1. exact H1.
+    - pose proof (observe_sound fr ls lb f s (ev8 c) H) as H1.
+      destruct (observe fr ls lb f s (ev8 c)) as [s1 ob] eqn:E1. simpl in H1. inversion E; subst.
+      split; [exact H1|exact (proj2 H)].
     - inversion E; subst. clear E.
       destruct (isdir f (jdir (cid8 c a)) && negb (exists_ f (jdir (cid8 c b)))); auto.
       destruct (rename f (jdir (cid8 c a)) (jdir (cid8 c b))) as [f1|e] eqn:E1; auto.
       eapply Inv_ws_only; [exact (proj2 H)| |exact (proj1 H)]. eapply rename_ws_only; eauto; reflexivity.
   Qed.
 
-  Lemma cache_le_sound : forall x y, sound fr x -> cache_le c y x = true -> sound_b c y = true.
+  Lemma cache_le_sound : forall x y, sound fr x -> cache_le y x = true -> sound_b c y = true.
   Proof.
     intros x y Hx H. unfold sound_b. unfold cache_le in H. rewrite forallb_forall in *. intros [k v] Hin.
     specialize (H _ Hin). simpl in *. destruct (alookup k x) as [w|] eqn:E; [|discriminate].
@@ -851,7 +908,12 @@ Section HOLDS.
     forallb (fun x => match st_obs x with Some o => clause_sound c o | None => true end) steps = true.
   Proof.
     induction steps as [|x r IH]; intros f s H E; simpl; auto.
-    simpl in E. destruct (mstep c (f, s) (st_op x)) as [[f1 s1] mr] eqn:E1.
+    change (run_cmp c (f, s) (x :: r)) with
+      (let '(st1, mr) := mstep c (f, s) (st_op x) in
+       ret_same mr (st_ret x)
+       && match st_obs x with Some o => sobs_same (mobs c (fst st1)) o | None => true end
+       && run_cmp c st1 r) in E.
+    destruct (mstep c (f, s) (st_op x)) as [[f1 s1] mr] eqn:E1.
     apply andb_true_iff in E. destruct E as [E E3]. apply andb_true_iff in E. destruct E as [_ E2].
     pose proof (mstep_inv _ _ _ _ _ _ H E1) as H1.
     rewrite (IH f1 s1 H1 E3), andb_true_r.
